@@ -297,6 +297,10 @@ from .c20 import r2_private_mutator_call_sites as _parser_call_sites_own_their_t
 from ..through_time import make_rule as _mk_tt
 _through_time = _mk_tt("C18")
 
+def _delta_arrays(ctx):
+    from ..idioms import check_delta_arrays
+    check_delta_arrays(ctx, ["bionumpy.io.strops", "bionumpy.io.file_buffers", "bionumpy.io.dump_csv"], "C18-R7")
+
 RULES = [
     ("C18-R1", r1_formatting),
     ("C18-R2", r2_parsing),
@@ -305,4 +309,5 @@ RULES = [
     ("C18-R5", r5_missing_shortcut),
     ("C18-R6", _parser_call_sites_own_their_text),
     ("C18-T1", _through_time),
+    ("C18-R7", _delta_arrays),
 ]
